@@ -48,6 +48,8 @@ type Check struct {
 	PerCaseTimeoutS int
 	// Post - optional extra work done by the coordinator after the workers (e.g. fuzzing); may add to the aggregate.
 	Post func(c *CoordCtx, agg *Agg) error
+	// ReplayDetail - replays a violation that is not a generated case (idx -2), from the detail stored in the replay file.
+	ReplayDetail func(detail json.RawMessage) *Result
 }
 
 var Registry = map[string]*Check{}
